@@ -436,3 +436,33 @@ def check_no_lock_release_inside(run, world, rule, only=lambda b: True):
                         site='%s (%s)' % (body.name, body.loc(b)), oracle='cache critical sections are not interrupted')
     run.ok(rule, 'no-interrupted-critical-sections', 'no guard.unlocked / bump / force_unlock in the analysed bodies')
     return n
+
+
+def check_clear_is_complete(run, prog, bodies, rule='C18-M4', namer=None):
+    """a function of the library that empties the store (or the queue) of a cache empties the other one too, on every
+    path: a half-cleared cache holds entries that can never be evicted, or queue slots without entries"""
+    eff = Effects(prog, stop_at_operations=True)
+    n = 0
+    for body in bodies:
+        sites = eff.sites(body)
+        s0 = [b for (b, k, ch) in sites if k == 'S0']
+        q0 = [b for (b, k, ch) in sites if k == 'Q0']
+        if not s0 and not q0:
+            continue
+        n += 1
+        name = namer(body) if namer else body.name
+        exits = set(body.exits())
+        miss_s = not s0 or bool(exits & body.reachable(0, blocked=tuple(s0)))
+        miss_q = not q0 or bool(exits & body.reachable(0, blocked=tuple(q0)))
+        # a path that clears neither is fine (nothing to do); judge paths that clear one of them
+        if s0 and q0:
+            half = any(bool(exits & body.reachable(b, blocked=tuple(q0))) and not any(body.dominates(q, b) for q in q0) for b in s0) or \
+                any(bool(exits & body.reachable(b, blocked=tuple(s0))) and not any(body.dominates(s_, b) for s_ in s0) for b in q0)
+        else:
+            half = True
+        if half:
+            run.bad(rule, '%s/half-clear' % name, '%s empties the %s of a cache but, on some path, not its %s' % (body.name, 'store' if s0 else 'queue', 'queue' if s0 else 'store'),
+                    site=body.name, oracle='store and queue are emptied together')
+        else:
+            run.ok(rule, name, 'store and queue emptied together on every path')
+    return n
